@@ -131,8 +131,13 @@ func doOp(in regIn) regOut {
 func recordHistory(rng *gen.Rng, hist int, shape int) []regEvent {
 	codec.Clear()
 	clients, opsPer := 6, 5
-	if shape == 1 {
+	switch shape {
+	case 1:
 		clients, opsPer = 12, 2
+	case 2:
+		clients, opsPer = 3, 10 // few clients, long per-client sequences
+	case 3:
+		clients, opsPer = 10, 3 // many clients, very short sequences
 	}
 	plans := make([][]regIn, clients)
 	for c := range plans {
@@ -270,8 +275,13 @@ func c19Workload(e *Env, n int, label string) c19Stats {
 	rng := gen.NewRng(e.Seed, "C19", label)
 	for h := 0; h < n; h++ {
 		shape := 0
-		if h%5 == 4 {
+		switch {
+		case h%5 == 4:
 			shape = 1
+		case h%10 == 3:
+			shape = 2
+		case h%10 == 7:
+			shape = 3
 		}
 		recs = append(recs, rec{recordHistory(rng, h, shape), shape, h})
 	}
@@ -413,7 +423,7 @@ func c19(e *Env) {
 		}
 		return
 	}
-	r.Rule("short concurrent histories against the real registry: shape A = 6 goroutines × 5 operations on 2 algorithm names, mix 45% Registry / 25% Get / 25% Remove / 5% Clear; shape B (every 5th) = 12 goroutines all registering the same fresh name at once, then looking it up; goroutines are released by a busy-wait barrier so calls genuinely overlap, with private random jitter between (never inside) calls; every registered service carries a unique id so that a look-up identifies the registration it saw; one sequential Get per name is appended after the goroutines have joined. Histories are recorded at the client boundary into per-goroutine slices with one monotonic clock (no shared recorder state inside the measured region). The workload runs in its own child process (it clears the built-in services; a runtime 'concurrent map' abort must not take the monitor down), once in a plain build and once in a -race build; plus five fresh processes whose very first registry calls are Clear / Remove / Registry / Get on the names of the built-in services (sequential, judged against the model started from the four built-ins). distinct_nontrivial = histories with at least one real-time overlap between calls of different goroutines")
+	r.Rule("short concurrent histories against the real registry: shape A = 6 goroutines × 5 operations on 2 algorithm names, mix 45% Registry / 25% Get / 25% Remove / 5% Clear; shape B (every 5th) = 12 goroutines all registering the same fresh name at once, then looking it up; every 10th history uses 3 goroutines × 10 operations, another every 10th 10 goroutines × 3; goroutines are released by a busy-wait barrier so calls genuinely overlap, with private random jitter between (never inside) calls; every registered service carries a unique id so that a look-up identifies the registration it saw; one sequential Get per name is appended after the goroutines have joined. Histories are recorded at the client boundary into per-goroutine slices with one monotonic clock (no shared recorder state inside the measured region). The workload runs in its own child process (it clears the built-in services; a runtime 'concurrent map' abort must not take the monitor down), once in a plain build and once in a -race build; plus five fresh processes whose very first registry calls are Clear / Remove / Registry / Get on the names of the built-in services (sequential, judged against the model started from the four built-ins). distinct_nontrivial = histories with at least one real-time overlap between calls of different goroutines")
 	r.Explain("Oracle 1: porcupine v1.3.0 linearizability check of every recorded history against a 25-line sequential map model (Registry succeeds iff the name is absent; Get returns the current registration or absent; Remove; Clear), unpartitioned because Clear spans names; checker timeout 10 s per history ⇒ inconclusive, never a violation. Oracle 2: Go race detector on the same workload (reports counted from the log), and the runtime's own 'concurrent map read and map write' abort. Oracle 3: the quiescent final Gets must be explained by the same linearization (a lost or duplicated insert nobody happened to read is still caught); shape B additionally asserts exactly one winner that the later look-up returns. A Get that returns a service whose own name differs from the name asked for can never be explained.")
 	r.Assume("linearizability is decided for the histories recorded, not for all interleavings", "the race detector judges only the accesses the workload performed")
 	runBuild := func(bin, mode, label string) {
